@@ -535,7 +535,9 @@ func (c *Ctx) judgeFailureRegion(fn *ssa.Function, call *ssa.Call, e ssa.Value, 
 			}
 			if !hasErr {
 				// no error result: accept only a nil/zero "no value" return for digest computation
-				if isNoValueReturn(r) && strings.HasSuffix(name(fn), ".Hash") {
+				// (the digest helpers: Hash and the unexported functions it delegates to;
+				// rule C5 then requires every caller to test the value)
+				if isNoValueReturn(r) && (strings.HasSuffix(name(fn), ".Hash") || fn.Object() != nil && !fn.Object().Exported() && strings.HasPrefix(name(fn), "authenticode.")) {
 					continue
 				}
 				okAll = false
@@ -731,6 +733,23 @@ func (c *Ctx) RuleC5(in func(*ssa.Function) bool) {
 			}
 		})
 	}
+	// a function that hands the value of such a helper straight on is one itself
+	for changed := true; changed; {
+		changed = false
+		for _, fn := range c.P.LibFunctions() {
+			if _, done := noValue[fn]; done || hasErrorResult(fn) || fn.Signature.Results().Len() != 1 {
+				continue
+			}
+			for _, r := range ir.Returns(fn) {
+				if call, ok := r.Results[0].(*ssa.Call); ok {
+					if kind, isNV := noValue[ir.Callee(call)]; isNV {
+						noValue[fn] = kind
+						changed = true
+					}
+				}
+			}
+		}
+	}
 	counts := map[string]int{}
 	for _, fn := range c.P.LibFunctions() {
 		if in != nil && !in(fn) {
@@ -753,6 +772,12 @@ func (c *Ctx) RuleC5(in func(*ssa.Function) bool) {
 				// comparisons with nil and len() feeding a comparison are the test itself
 				if b, isB := u.(*ssa.BinOp); isB && (b.Op == token.EQL || b.Op == token.NEQ) {
 					continue
+				}
+				// handed straight on by a function that is a 'no value' function itself: its callers are judged
+				if _, isRet := u.(*ssa.Return); isRet {
+					if _, self := noValue[fn]; self {
+						continue
+					}
 				}
 				if lc, isC := u.(*ssa.Call); isC && ir.CallID(lc) == "builtin.len" {
 					continue
